@@ -11,7 +11,10 @@
   watermark beyond it, and transaction windows commit exactly as the user logic dictates."
 
   Throughout, `0 < slide` (and `0 < size` where needed) are the assertions of
-  `EventTimeWindow::sliding/tumbling`.
+  `EventTimeWindow::sliding/tumbling`. The models follow /repo after the fixes of F2 (backward
+  allocation of windows, commit c425a6d) and F3 (windows fire on `end <= watermark`, commit 6022f0c);
+  the former counterexamples are kept as positive regression `example`s at the end.
+  Watermark safety of the operator's output (`etwin_preserves_wmsafe`) is in Props/C06Etwin.lean.
 -/
 import NoirVerif.Lemmas.EventTimeWindow
 namespace Noir.EventTimeWindow
@@ -104,14 +107,9 @@ theorem etwin_reachable_inv (c : Cfg) (hS : 0 < c.slide) (es : List (Elem α)) :
 
 /-! ### exactly one / at least one / at most ⌈size/slide⌉
 
-  Full statements (what C13 asks for), for one iteration `es ++ [far]` of one key whose arrivals
-  are not late:
-    `etwin_tumbling_exactly_one` : results' items are a permutation of the arrivals;
-    `etwin_sliding_cover`        : every arrival is in between 1 and ⌈size/slide⌉ results.
-  The lower bounds are FALSE for the unchanged code (F2, see the counterexamples below); they are
-  proved under the additional hypothesis, part of `Guarded`, that no arrival is earlier than the
-  start of the oldest open slot of its key at its arrival. The upper bounds hold unconditionally
-  (`etwin_no_dup`). -/
+  Stated for one iteration `es ++ [far]` of one key: `es` is any watermark-safe sequence
+  (`wmSafeOk`: no arrival at or before a previous watermark, watermarks increase) without a
+  `FlushAndRestart` inside — any arrival order, any placement of the watermarks. -/
 
 /-- **C13 (no duplicates, at most ⌈size/slide⌉; unconditional).** For any input, the items of all
     results of an iteration are the arrivals, each repeated at most `⌈size/slide⌉` times — at most
@@ -129,14 +127,14 @@ theorem etwin_no_dup (c : Cfg) (hS : 0 < c.slide) (hN : 0 < c.size) (es : List (
       (es ++ [.far]) State.init (inv_init c _) (fun _ _ _ => trivial)
     rwa [dataOf_snoc_far] at this
 
-/-- **C13 (tumbling: exactly one), partial.** If every arrival of the iteration is not late and
-    not earlier than the oldest open slot (`Guarded`), the items of all results are exactly the
-    arrivals: every element is in exactly one result, whatever the arrival order and the placement
-    of the watermarks. Missing for the full statement: the F2 guard. -/
-theorem etwin_tumbling_exactly_one_partial (c : Cfg) (hN : 0 < c.size) (hT : c.slide = c.size)
-    (es : List (Elem α)) (hg : Guarded c State.init es) :
+/-- **C13 (tumbling: exactly one).** For a tumbling window and any watermark-safe iteration, the
+    items of all results are a permutation of the arrivals: every element that is not late is in
+    exactly one result, whatever the arrival order and the placement of the watermarks. -/
+theorem etwin_tumbling_exactly_one (c : Cfg) (hN : 0 < c.size) (hT : c.slide = c.size)
+    (es : List (Elem α)) (hfar : ∀ e ∈ es, e ≠ .far) (hw : wmSafeOk es = true) :
     (outItems (results c State.init (es ++ [.far]))).Perm (dataOf es) := by
   have hS : 0 < c.slide := by omega
+  have hg : Guarded c State.init es := guarded_of_wmSafe c es State.init hfar hw
   have hm := assigned_multi c hS (by omega) (fun _ => True) 1 (fun t ws h1 h2 => hits_le_one c hT t ws h1 h2)
     (es ++ [.far]) State.init (inv_init c _) (covers_init c) (guarded_snoc_far c es _ hg) (fun _ _ _ => trivial)
   have := multi_one _ _ hm
@@ -144,27 +142,29 @@ theorem etwin_tumbling_exactly_one_partial (c : Cfg) (hN : 0 < c.size) (hT : c.s
   rw [← this]
   exact results_far_conserve c hS es
 
-/-- **C13 (sliding: between 1 and ⌈size/slide⌉), partial.** Same hypotheses, `slide ≤ size`:
-    every arrival is in at least one and at most `⌈size/slide⌉` results. -/
-theorem etwin_sliding_cover_partial (c : Cfg) (hS : 0 < c.slide) (hSN : c.slide ≤ c.size)
-    (es : List (Elem α)) (hg : Guarded c State.init es) :
+/-- **C13 (sliding: between 1 and ⌈size/slide⌉).** For `slide ≤ size` and any watermark-safe
+    iteration, every arrival is in at least one and at most `⌈size/slide⌉` results.
+    (For `slide > size` the windows leave gaps: an arrival may legitimately be in no result; only
+    the upper bound of `etwin_no_dup` holds.) -/
+theorem etwin_sliding_cover (c : Cfg) (hS : 0 < c.slide) (hSN : c.slide ≤ c.size)
+    (es : List (Elem α)) (hfar : ∀ e ∈ es, e ≠ .far) (hw : wmSafeOk es = true) :
     ∃ as, (outItems (results c State.init (es ++ [.far]))).Perm as ∧
       Multi 1 (ceilSlots c) (dataOf es) as := by
+  have hg : Guarded c State.init es := guarded_of_wmSafe c es State.init hfar hw
   refine ⟨assigned c State.init (es ++ [.far]), results_far_conserve c hS es, ?_⟩
   have := assigned_multi c hS hSN (fun _ => True) (ceilSlots c)
     (fun t ws h1 h2 => hits_le_ceilSlots c hS (by omega) t ws h1 h2)
     (es ++ [.far]) State.init (inv_init c _) (covers_init c) (guarded_snoc_far c es _ hg) (fun _ _ _ => trivial)
   rwa [dataOf_snoc_far] at this
 
-/-- Non-vacuity of `Guarded`: out-of-order arrivals (7 after 5 is fine, 17 after 21 is fine because
-    the slot [15,25) is the oldest open one), a watermark in between, an idle gap; the tumbling
-    results are the two groups. The F2 witness 5, 3, 7 is *not* `Guarded`. -/
+/-- Non-vacuity: out-of-order arrivals (3 after 5 — the former F2 witness —, 17 after 21), a
+    watermark equal to a window end, an idle gap (windows stay aligned to the first anchor 5). -/
 example :
-    let es : List (Elem Nat) := [.ts 1 5, .ts 2 7, .wm 6, .ts 3 21, .wm 16, .ts 4 17]
-    Guarded ⟨10, 10⟩ State.init es ∧
-    (results ⟨10, 10⟩ State.init (es ++ [.far])).map (·.val) = [[(1, 5), (2, 7)], [(3, 21), (4, 17)]] ∧
-    guardedB ⟨10, 10⟩ State.init ([.ts 1 5, .ts 2 3, .ts 3 7] : List (Elem Nat)) = false :=
-  ⟨guarded_of_guardedB _ _ _ (by decide), by decide, by decide⟩
+    let es : List (Elem Nat) := [.ts 1 5, .ts 2 3, .ts 3 7, .wm 15, .ts 4 31, .wm 16, .ts 5 27]
+    wmSafeOk es = true ∧ (∀ e ∈ es, e ≠ .far) ∧
+    (run ⟨10, 10⟩ (es ++ [.far])).map (fun p => (p.1, p.2.val, p.2.ts)) =
+      [(3, [(2, 3)], some 5), (3, [(1, 5), (3, 7)], some 15), (7, [(4, 31), (5, 27)], some 35)] := by
+  decide
 
 /-- `⌈size/slide⌉` for the configurations of the unit tests: sliding(5,4) → 2, tumbling → 1 -/
 example : ceilSlots ⟨5, 4⟩ = 2 ∧ ceilSlots ⟨10, 10⟩ = 1 ∧ ceilSlots ⟨7, 2⟩ = 4 := by decide
@@ -173,13 +173,14 @@ example : ceilSlots ⟨5, 4⟩ = 2 ∧ ceilSlots ⟨10, 10⟩ = 1 ∧ ceilSlots 
 
 /-- **C13 (fire bounds, one step — what the code does).** On a reachable state:
     a data element emits nothing; `Watermark(w)` emits exactly the non-empty slots with
-    `end < w` (strictly — a watermark *equal* to the end does not fire, see F3), in slot order,
-    stamped with their end, and afterwards no slot with `end < w` is open while every slot with
-    `end ≥ w` still is; `FlushAndRestart`/`Terminate` emit every non-empty slot and close all. -/
+    `end ≤ w`, in slot order, stamped with their end, and afterwards no slot with `end ≤ w` is open
+    while every slot with `end > w` still is — so a window is emitted exactly at the first
+    watermark that reaches its end; `FlushAndRestart`/`Terminate` emit every non-empty slot and
+    close all. -/
 theorem etwin_fire_bounds (c : Cfg) (hS : 0 < c.slide) (st : State α) (inv : Inv c (fun _ => True) st) :
     (∀ x t, (process c st (.ts x t)).2 = []) ∧
-    (∀ w, (process c st (.wm w)).2 = emit (st.ws.filter (fun s => decide (s.stop < w))) ∧
-          (process c st (.wm w)).1.ws = st.ws.filter (fun s => !decide (s.stop < w))) ∧
+    (∀ w, (process c st (.wm w)).2 = emit (st.ws.filter (fun s => decide (s.stop ≤ w))) ∧
+          (process c st (.wm w)).1.ws = st.ws.filter (fun s => !decide (s.stop ≤ w))) ∧
     ((process c st .far).2 = emit st.ws ∧ (process c st .far).1.ws = []) ∧
     ((process c st .term).2 = emit st.ws ∧ (process c st .term).1.ws = []) := by
   refine ⟨fun _ _ => rfl, ?_, ⟨rfl, rfl⟩, ⟨rfl, rfl⟩⟩
@@ -189,46 +190,37 @@ theorem etwin_fire_bounds (c : Cfg) (hS : 0 < c.slide) (st : State α) (inv : In
   exact ⟨by rw [h1], h2⟩
 
 /-- **C13 (fire bounds, whole run).** Every result of a run is emitted while processing either a
-    watermark strictly greater than its stamp (= its window end), or `FlushAndRestart`/`Terminate`
-    — never on a data element, never before a watermark has passed its end. -/
+    watermark that has reached its stamp (= its window end, `end ≤ w`), or
+    `FlushAndRestart`/`Terminate` — never on a data element, never before a watermark has reached
+    its end. -/
 theorem etwin_fire_bounds_run (c : Cfg) (es : List (Elem α)) :
     ∀ p ∈ run c es,
       es[p.1]? = some .far ∨ es[p.1]? = some .term ∨
-      ∃ w stop, es[p.1]? = some (.wm w) ∧ p.2.ts = some stop ∧ stop < w := by
+      ∃ w stop, es[p.1]? = some (.wm w) ∧ p.2.ts = some stop ∧ stop ≤ w := by
   intro p hp
   obtain ⟨j, hj, h⟩ := runFrom_fire c es State.init 0 p hp
   have : p.1 = j := by omega
   rw [this]; exact h
 
-/-! ### the two defects of the unchanged code -/
+/-! ### regression examples: the witnesses of the two defects that were fixed in /repo -/
 
-/-- **F2 (confirmed on the real code).** `tumbling(10)`, arrivals with timestamps 5, 3, 7 and no
-    watermark at all (so nothing is late): the element with timestamp 3 is in no result.
-    The full statement `etwin_tumbling_exactly_one` (every non-late element is in exactly one
-    result) is therefore false for the code as it is. -/
-theorem etwin_tumbling_exactly_one_counterexample :
+/-- Former F2 witness (`tumbling(10)`, timestamps 5, 3, 7, no watermark). Before commit c425a6d the
+    element with timestamp 3 was in no result; now a window [-5, 5) is allocated backwards for it. -/
+example :
     let es : List (Elem Nat) := [.ts 1 5, .ts 2 3, .ts 3 7, .far]
-    wmSafeOk es = true ∧
-    (run ⟨10, 10⟩ es).map (fun p => (p.1, p.2.val, p.2.ts)) = [(3, [(1, 5), (3, 7)], some 15)] ∧
-    ¬ ∃ p ∈ run ⟨10, 10⟩ es, (2, 3) ∈ p.2.val := by
+    (run ⟨10, 10⟩ es).map (fun p => (p.1, p.2.val, p.2.ts)) =
+      [(3, [(2, 3)], some 5), (3, [(1, 5), (3, 7)], some 15)] ∧
+    (∃ p ∈ run ⟨10, 10⟩ es, (2, 3) ∈ p.2.val) ∧
+    (∃ p ∈ run ⟨10, 5⟩ es, (2, 3) ∈ p.2.val) := by
   decide
 
-/-- **F3 (confirmed on the real code).** A slot fires on `end < w` but its result is stamped `end`:
-    with `tumbling(10)`, `Timestamped(1, 3)`, `Watermark(13)`, `Watermark(14)` the operator forwards
-    `Watermark(13)` and afterwards emits a result stamped 13. The input is watermark-safe, the
-    output is not (property C06). -/
-theorem etwin_wmsafe_counterexample :
+/-- Former F3 witness (`tumbling(10)`, `Timestamped(1, 3)`, `Watermark(13)`, `Watermark(14)`).
+    Before commit 6022f0c the operator forwarded `Watermark(13)` and emitted the result stamped 13
+    afterwards; now the result precedes the watermark and the output is watermark-safe. -/
+example :
     let es : List (Elem (Nat × Nat)) := [.ts (0, 1) 3, .wm 13, .wm 14, .far, .term]
-    wmSafeOk es = true ∧
-    WindowOp.run (mgr ⟨10, 10⟩) es = [.wm 13, .ts (0, [(1, 3)]) 13, .wm 14, .far, .term] ∧
-    wmSafeOk (WindowOp.run (mgr ⟨10, 10⟩) es) = false := by
-  decide
-
-/-- **F2 for sliding windows.** `sliding(10, 5)`, same arrivals: the element with timestamp 3 is in
-    no result although it is not late (the lower bound of `etwin_sliding_cover` fails). -/
-theorem etwin_sliding_cover_counterexample :
-    let es : List (Elem Nat) := [.ts 1 5, .ts 2 3, .ts 3 7, .far]
-    wmSafeOk es = true ∧ ¬ ∃ p ∈ run ⟨10, 5⟩ es, (2, 3) ∈ p.2.val := by
+    WindowOp.run (mgr ⟨10, 10⟩) es = [.ts (0, [(1, 3)]) 13, .wm 13, .wm 14, .far, .term] ∧
+    wmSafeOk (WindowOp.run (mgr ⟨10, 10⟩) es) = true := by
   decide
 
 end Noir.EventTimeWindow
